@@ -307,3 +307,25 @@ def validate_translation(pattern: str, samples, mode="match"):
             if enc_b != real:
                 bad.append((pattern, s, real, enc_b))
     return bad
+
+
+def split_at_group(pattern: str, name: str):
+    """For a pattern whose named group `name` sits in the top-level sequence:
+    -> (items_before, group_body_items, items_after, had_end_anchor)."""
+    items, _b, had_end, tree = _strip_anchors(pattern)
+    gid = tree.state.groupdict.get(name)
+    if gid is None:
+        raise Unsupported(f"group {name} not in pattern")
+    for i, (op, av) in enumerate(items):
+        if op is sc.SUBPATTERN and av[0] == gid:
+            return items[:i], list(av[3]), items[i + 1:], had_end
+    raise Unsupported(f"group {name} is not at the top level of the pattern")
+
+
+def contribution_language(pattern: str, name: str):
+    """{ s | re.match(pattern, s) succeeds with a NON-EMPTY group `name` } for a top-level group,
+    as (z3 regex, (before, body, after) regexes).  Over-approximates the engine by all parses."""
+    before, body, after, had_end = split_at_group(pattern, name)
+    b, g, a = lang(before), z3.Intersect(lang(body), z3.Plus(ANYC)), lang(after)
+    tail = z3.Option(NL) if had_end else SIGMA_STAR
+    return z3.Concat(b, g, a, tail), (b, g, z3.Concat(a, tail))
